@@ -384,3 +384,46 @@ package interpreter
 //@   fails[C21] mval(step) == 0 || (mval(start) < mval(end) && mval(step) < 0) || (mval(start) > mval(end) && mval(step) > 0) => InclusiveRangeConstructionError
 //@   env MemoryMeteringError ComputationMeteringError
 //@   ensures[C21] result != nil
+
+// ---- Fix128 / UFix128 arithmetic (C15, C13, C18): the repository's part is the mapping of the fixed-point library's
+// (value, error) results to Cadence results and failures; the library's contracts are assumed
+// (/verif/contracts/stdlib/fixedpoint.spec). Truncation toward zero is written in sign-magnitude form.
+//@ func NewFix128Value
+//@   inline
+//@ func NewUnmeteredFix128Value
+//@   inline
+//@ func NewUFix128Value
+//@   inline
+//@ func NewUnmeteredUFix128Value
+//@   inline
+//@ func handleFixedpointError
+//@   inline
+//@ func fix128SaturationArithmaticResult
+//@   inline
+//@ func ufix128SaturationArithmaticResult
+//@   inline
+//@ schema binop_checked(T=Fix128Value, M=Plus, E=a + b, DZ=false, min=-pow2(127), max=pow2(127)-1, P=C15, MEM=true, LEM=true)
+//@ schema binop_checked(T=Fix128Value, M=Minus, E=a - b, DZ=false, min=-pow2(127), max=pow2(127)-1, P=C15, MEM=true, LEM=true)
+//@ schema binop_checked(T=Fix128Value, M=Mul, E=sgn(a) * sgn(b) * ediv(abs(a) * abs(b), 1000000000000000000000000), DZ=false, min=-pow2(127), max=pow2(127)-1, P=C15, MEM=true, LEM=true)
+//@ schema binop_checked(T=Fix128Value, M=Div, E=sgn(a) * sgn(b) * ediv(abs(a) * 1000000000000000000000000, abs(b)), DZ=b == 0, min=-pow2(127), max=pow2(127)-1, P=C15, MEM=true, LEM=true)
+//@ schema binop_checked(T=Fix128Value, M=Mod, E=sgn(a) * (abs(a) - ediv(abs(a), abs(b)) * abs(b)), DZ=b == 0, min=-pow2(127), max=pow2(127)-1, P=C15, MEM=true, LEM=true)
+//@ schema binop_sat(T=Fix128Value, M=SaturatingPlus, E=a + b, DZ=false, min=-pow2(127), max=pow2(127)-1, P=C13, MEM=true, LEM=true)
+//@ schema binop_sat(T=Fix128Value, M=SaturatingMinus, E=a - b, DZ=false, min=-pow2(127), max=pow2(127)-1, P=C13, MEM=true, LEM=true)
+//@ schema binop_sat(T=Fix128Value, M=SaturatingMul, E=sgn(a) * sgn(b) * ediv(abs(a) * abs(b), 1000000000000000000000000), DZ=false, min=-pow2(127), max=pow2(127)-1, P=C13, MEM=true, LEM=true)
+//@ schema binop_sat(T=Fix128Value, M=SaturatingDiv, E=sgn(a) * sgn(b) * ediv(abs(a) * 1000000000000000000000000, abs(b)), DZ=b == 0, min=-pow2(127), max=pow2(127)-1, P=C13, MEM=true, LEM=true)
+//@ schema negate_checked(T=Fix128Value, min=-pow2(127), max=pow2(127)-1, P=C15, MEM=true, LEM=true)
+//@ schema cmp(T=Fix128Value, P=C18)
+//@ schema fmd(T=Fix128Value, min=-pow2(127), max=pow2(127)-1)
+//@ schema binop_checked(T=UFix128Value, M=Plus, E=a + b, DZ=false, min=0, max=pow2(128)-1, P=C15, MEM=true, LEM=true)
+//@ schema binop_checked(T=UFix128Value, M=Minus, E=a - b, DZ=false, min=0, max=pow2(128)-1, P=C15, MEM=true, LEM=true)
+//@ schema binop_checked(T=UFix128Value, M=Mul, E=ediv(a * b, 1000000000000000000000000), DZ=false, min=0, max=pow2(128)-1, P=C15, MEM=true, LEM=true)
+//@ schema binop_checked(T=UFix128Value, M=Div, E=ediv(a * 1000000000000000000000000, b), DZ=b == 0, min=0, max=pow2(128)-1, P=C15, MEM=true, LEM=true)
+//@ schema binop_checked(T=UFix128Value, M=Mod, E=a - ediv(a, b) * b, DZ=b == 0, min=0, max=pow2(128)-1, P=C15, MEM=true, LEM=true)
+//@ schema binop_sat(T=UFix128Value, M=SaturatingPlus, E=a + b, DZ=false, min=0, max=pow2(128)-1, P=C13, MEM=true, LEM=true)
+//@ schema binop_sat(T=UFix128Value, M=SaturatingMinus, E=a - b, DZ=false, min=0, max=pow2(128)-1, P=C13, MEM=true, LEM=true)
+//@ schema binop_sat(T=UFix128Value, M=SaturatingMul, E=ediv(a * b, 1000000000000000000000000), DZ=false, min=0, max=pow2(128)-1, P=C13, MEM=true, LEM=true)
+//@ schema cmp(T=UFix128Value, P=C18)
+//@ schema fmd(T=UFix128Value, min=0, max=pow2(128)-1)
+// multiplyDivide of the 64-bit fixed-point types (same library, 64-bit raw values)
+//@ schema fmd(T=Fix64Value, min=-pow2(63), max=pow2(63)-1)
+//@ schema fmd(T=UFix64Value, min=0, max=pow2(64)-1)
